@@ -9,6 +9,8 @@ pub fn content(class: &str, len: usize, seed: u64) -> Vec<u8> {
         "ff" => vec![0xffu8; len],
         "x80" => vec![0x80u8; len],
         "mod251" => (0..len).map(|i| (i % 251) as u8).collect(),
+        "annex" => b"message digest"[..len].to_vec(),
+        "annex-enc" => b"encryption standard"[..len].to_vec(),
         "seed" => SplitMix::new(seed, &format!("content{}", len)).bytes(len),
         _ => panic!("unknown content class {}", class),
     }
@@ -41,4 +43,41 @@ pub fn blocks128(seed: u64, stream: &str, nseed: usize) -> Vec<[u8; 16]> {
     v.sort();
     v.dedup();
     v
+}
+
+use num_bigint::BigUint;
+use num_traits::One;
+
+pub const ANNEX_D: &str = "3945208F7B2144B13F36E38AC6D39F95889393692860B51A42FB81EF4DF7C5B8";
+pub const ANNEX_K: &str = "59276E27D506861A16680F3AD9C02DCCEF3CC1FA3CDBE4CE6D54B80DEAC1BC21";
+
+/// named scalar alphabet in [1, order-1] (names are stable and appear in replay records)
+pub fn scalar_alphabet(order: &BigUint, seed: u64, stream: &str, top: u32) -> Vec<(String, BigUint)> {
+    let one = BigUint::one();
+    let mut v: Vec<(String, BigUint)> = vec![
+        ("1".into(), one.clone()),
+        ("2".into(), BigUint::from(2u32)),
+        ("3".into(), BigUint::from(3u32)),
+        (format!("order-{}", top), order - BigUint::from(top)),
+        (format!("order-{}", top + 1), order - BigUint::from(top + 1)),
+        ("2^255".into(), &one << 255),
+        ("2^128-1".into(), (&one << 128) - &one),
+        ("limb0".into(), (&one << 64) - &one),
+        ("limb1".into(), ((&one << 64) - &one) << 64),
+        ("limb2".into(), ((&one << 64) - &one) << 128),
+        ("limb3lo".into(), ((&one << 63) - &one) << 192),
+    ];
+    let mut g = SplitMix::new(seed, stream);
+    for i in 0..2 {
+        v.push((format!("seed{}", i), g.nonzero_below(&(order - &one))));
+    }
+    v.retain(|(_, x)| x >= &one && x < order);
+    v
+}
+
+pub fn lookup(alpha: &[(String, BigUint)], name: &str) -> BigUint {
+    if let Some(h) = name.strip_prefix("hex:") {
+        return refmodels::util::hexbig(h);
+    }
+    alpha.iter().find(|(n, _)| n == name).unwrap_or_else(|| panic!("unknown alphabet element {}", name)).1.clone()
 }
